@@ -380,7 +380,7 @@ def run(chk):
     stats = {"status": {}, "tags": {}, "trips": {}, "hyp": {}, "schedules": 0, "gf_runs": 0, "gf_skipped": 0,
              "violations": 0, "known_class": {}, "known_class_gfortran": {}, "history_cases": 0, "histories": [], "static": {},
              "options_mutations": 0, "validate_tie": {}, "pairs": {}}
-    runner = Runner(reps=(3 if thorough else 2), wide=thorough)
+    runner = Runner(reps=2, wide=thorough)    # thorough: 6 thread counts x 7 schedules x 2 = 84 runs per accepted loop
     gen = R.Gen(chk.rng)
     n = 320 if thorough else 50
     if os.environ.get("VERIF_C09_CASES"):          # self-test aid: fewer random cases (the corpus always runs)
